@@ -93,6 +93,10 @@ def gen_vm(rng, tier="quick", exotic=False):
     return {"name": "vm%d" % rng.randrange(1000), "devices": devices, "controllers": ctrls, "unrelated": unrelated, "exotic": bool(exotic)}
 
 
+# spellings of an EMPTY value in a VMX file (what follows the '='): quotes and blanks around nothing
+EMPTY_RAW = ['""', "", '" "', "  ", '"  "']
+
+
 def hard_disks(vm):
     return [d for d in vm["devices"] if d["kind"] in DISK_KINDS and d["file"]]
 
@@ -106,7 +110,7 @@ def _case(rng, k):
 
 def render_vmx(vm, rng):
     """-> (text, sorted disk list, {lower-cased key: value})"""
-    final, decoy = {}, {}
+    final, decoy, raw = {}, {}, {}
 
     def put(k, v, old=None):
         if k.lower() not in final:
@@ -130,12 +134,24 @@ def render_vmx(vm, rng):
         if rng.random() < 0.8:
             put(base + ".present", "TRUE")
         put(base + ".fileName", fn, rng.choice(["OLD-" + fn, "", "other.iso"]))
+        if not fn and d.get("file_raw") is not None and final[(base + ".fileName").lower()][0] == base + ".fileName":
+            raw[(base + ".fileName").lower()] = d["file_raw"]           # an empty value has several spellings (see EMPTY_RAW)
         if d["kind"] == "disk":
             dt = rng.choice([None, None, "scsi-hardDisk", "scsi-hardDisk", "disk", "ata-hardDisk", "SCSI-HARDDISK", "scsi-harddisk", "rawDisk", "Disk"])
         elif d["kind"] == "rdm-legacy":
             dt = rng.choice(["scsi-passthru-rdm", "scsi-nonpassthru-rdm"])
         else:
             dt = rng.choice({"cdrom-image": ["cdrom-image", "cdrom-image", "CDROM-Image"], "cdrom-raw": ["cdrom-raw", "atapi-cdrom"]}[d["kind"]])
+        if d["kind"] == "disk" and "dt_raw" in d:
+            # directed: the key is present but its value is empty (spelled d["dt_raw"]), optionally cleared by this last assignment
+            # after an earlier one (d["dt_old"]); a device without a type is an ordinary hard disk
+            lk = (base + ".deviceType").lower()
+            if lk not in final:
+                final[lk] = (base + ".deviceType", "")
+                raw[lk] = d["dt_raw"]
+                if d.get("dt_old") is not None:
+                    decoy[lk] = d["dt_old"]
+            dt = None
         if dt is not None:
             put(base + ".deviceType", dt, "cdrom-image" if disk else "scsi-hardDisk")
         for p, v in rng.sample([("redo", ""), ("mode", "independent-persistent"), ("writeThrough", "TRUE"), ("startConnected", "FALSE"),
@@ -147,13 +163,13 @@ def render_vmx(vm, rng):
     rows = []
     for lk, (k, v) in final.items():
         pos = rng.random()
-        rows.append((pos, k, v))
+        rows.append((pos, k, v, raw.get(lk)))
         if lk in decoy:
-            rows.append((rng.random() * pos, k, decoy[lk]))
+            rows.append((rng.random() * pos, k, decoy[lk], None))
     rows.sort(key=lambda r: r[0])
     eol = rng.choice(["\n", "\n", "\n", "\r\n"])
     lines = ["#!/usr/bin/vmware"] if rng.random() < 0.6 else []
-    for _, k, v in rows:
+    for _, k, v, rw in rows:
         r = rng.random()
         if r < 0.08:
             lines.append(rng.choice(["", " ", "\t", "   "]))
@@ -162,7 +178,7 @@ def render_vmx(vm, rng):
         bare = rng.random() < 0.15 and '"' not in v and v == v.strip()
         sp2 = rng.choice([" ", " ", "", "  "]) + ("\t" if vm.get("exotic") and rng.random() < 0.1 else "")
         lines.append(rng.choice(["", "", "", " ", "\t"]) + _case(rng, k) + rng.choice([" ", " ", "", "  ", "\t"]) + "=" + sp2
-                     + (v if bare else f'"{v}"') + rng.choice(["", "", "", " ", "\t", "  "]))
+                     + (rw if rw is not None else v if bare else f'"{v}"') + rng.choice(["", "", "", " ", "\t", "  "]))
     text = eol.join(lines) + (eol if rng.random() < 0.8 else "")
     truth = sorted(d["file"] + ".vmdk" for d in hard_disks(vm))
     return text, truth, {lk: v for lk, (k, v) in final.items()}
